@@ -230,9 +230,14 @@ fn read_case(img: &[u8], valid_endlib_end: Option<usize>, truncated_at: Option<u
                 return CaseOut { violation: Some(Violation { class: "accepted-truncated".into(), sig: "truncated-before-ENDLIB-accepted".into(), detail: format!("stream cut at byte {} (ENDLIB record ends at {}) was accepted", t, e), artefact: art(img) }), ok: true };
             }
         }
-        // O3 general: Ok only if a well-framed ENDLIB is reachable by framing alone
+        // O3 general: Ok only if the reader can have consumed an ENDLIB record at all. Stated as a necessary
+        // condition that holds under any framing leniency: the four bytes of an ENDLIB record occur in the image
+        // (a scan-based version would wrongly flag a reader that tolerates, say, odd record lengths).
+        if !img.windows(4).any(|w| w == [0, 4, 4, 0]) {
+            return CaseOut { violation: Some(Violation { class: "accepted-without-endlib".into(), sig: "accepted-without-ENDLIB".into(), detail: "reader returned a library although the bytes contain no ENDLIB record".into(), artefact: art(img) }), ok: true };
+        }
         if gdsref::scan(img, false).is_err() {
-            return CaseOut { violation: Some(Violation { class: "accepted-without-endlib".into(), sig: "accepted-without-ENDLIB".into(), detail: "reader returned a library although record framing never reaches an ENDLIB record".into(), artefact: art(img) }), ok: true };
+            out_probes.hit("accepted_although_spec_framing_breaks_before_endlib");
         }
         // O4: re-serialise and read back
         let mut buf = Vec::new();
